@@ -261,8 +261,26 @@ func (sc *c06eScenario) Check(w *simWorld, last *simEvent) {
 			rule = "wellformed:" + sc.cs.Faults[0]
 		}
 	}
+	framing, mpFlagsErr := "", false
+	for _, e := range v.Errs {
+		if e.Rule == "attr-overrun" || e.Rule == "attr-underrun" {
+			framing = "after-" + e.Rule
+		}
+		if strings.HasPrefix(e.Attr, "MP_") && strings.HasPrefix(e.Rule, "flags") {
+			mpFlagsErr = true
+		}
+	}
 	viol := func(kind, format string, a ...any) {
-		w.violate(fmt.Sprintf("C06:effect:%s:%s:want=%s:%s", kind, rule, v.Primary, mode), format+" — "+what, a...)
+		key := fmt.Sprintf("C06:effect:%s:%s:want=%s:%s", kind, rule, v.Primary, mode)
+		if strings.HasPrefix(kind, "class:got=") && kind != "class:got=reset" {
+			switch {
+			case v.Rule == "nlri-field" && framing != "":
+				key = fmt.Sprintf("C06:effect:decoder-returns-before-nlri-field:nlri-error-unseen:%s:%s", strings.TrimPrefix(kind, "class:"), mode)
+			case strings.HasPrefix(v.Attr, "MP_") && strings.HasPrefix(v.Rule, "mp-") && mpFlagsErr:
+				key = fmt.Sprintf("C06:effect:mp-attr-flags-error-hides-value-errors:%s:%s", strings.TrimPrefix(kind, "class:"), mode)
+			}
+		}
+		w.violate(key, format+" — "+what, a...)
 	}
 	p := w.peer(sc.bot)
 	est := p != nil && p.State() == bgp.BGP_FSM_ESTABLISHED
@@ -312,14 +330,22 @@ func (sc *c06eScenario) Check(w *simWorld, last *simEvent) {
 	// ---- is that reaction one the RFCs permit, and was it carried out completely?
 	switch actual {
 	case "reset":
+		dErr, vMsg, vReset := c06eDiagnose(sc.raw, pt)
+		afterDecode := sc.cs.Revised && dErr && vReset
 		if !v.Accept[c06lib.Reset] {
-			viol("class:got=reset", "the session was reset (state %v, NOTIFICATIONs %v)", p.State(), notifs)
+			if afterDecode {
+				w.violate(fmt.Sprintf("C06:effect:validate-after-decode-error:%s:want=%s:got=reset", c06eSanitize(vMsg), v.Primary), "the session was reset (state %v, NOTIFICATIONs %v): the decoder had rejected an attribute and the validation stage, run over the half-decoded attributes, asked for a reset (%q) — %s", p.State(), notifs, vMsg, what)
+			} else {
+				viol("class:got=reset", "the session was reset (state %v, NOTIFICATIONs %v)", p.State(), notifs)
+			}
 			break
 		}
 		if len(notifs) != 1 {
 			viol("reset-notification-count", "session reset but %d NOTIFICATIONs reached the peer", len(notifs))
 		} else if n := notifs[0]; n[0] == 0 {
 			viol("notif-0/0", "NOTIFICATION %d/%d sent: error code 0 does not exist", n[0], n[1])
+		} else if (n[0] != 3 || !v.Subs[n[1]]) && afterDecode {
+			w.violate(fmt.Sprintf("C06:effect:validate-after-decode-error:%s:notif=%d/%d", c06eSanitize(vMsg), n[0], n[1]), "NOTIFICATION %d/%d sent (validation of half-decoded attributes: %q), acceptable 3/%s — %s", n[0], n[1], vMsg, v.SubsString(), what)
 		} else if n[0] != 3 || !v.Subs[n[1]] {
 			w.violate(fmt.Sprintf("C06:effect:notif:got=%d/%d:%s:%s", n[0], n[1], rule, mode), "NOTIFICATION %d/%d sent, acceptable 3/%s — %s", n[0], n[1], v.SubsString(), what)
 		}
@@ -428,7 +454,14 @@ func (sc *c06eScenario) Check(w *simWorld, last *simEvent) {
 				}
 				for t := range v.MustNotInstall {
 					if have[t] {
-						bad = append(bad, "malformed-"+c06lib.TypeName(t)+"-kept")
+						label := "malformed-" + c06lib.TypeName(t) + "-kept"
+						for _, e := range v.Errs {
+							if e.Attr == c06lib.TypeName(t) && !e.OnOpt && !strings.HasPrefix(e.Rule, "dup") {
+								label = e.Attr + ":" + e.Rule + "-kept"
+								break
+							}
+						}
+						bad = append(bad, label)
 					}
 				}
 			}
@@ -452,6 +485,50 @@ func (sc *c06eScenario) Check(w *simWorld, last *simEvent) {
 		}
 		w.stat("observer updates checked")
 	}
+}
+
+// c06eDiagnose runs the exported decode and validation functions on the message (diagnosis for the
+// violation key only, never part of the oracle): did the decoder reject an attribute, and what does the
+// validation stage say about the message it left behind?
+func c06eDiagnose(raw []byte, pt c06lib.PeerType) (decodeErr bool, validateMsg string, validateReset bool) {
+	defer func() {
+		if r := recover(); r != nil {
+			validateMsg, validateReset = "panic", true
+		}
+	}()
+	rf := map[bgp.Family]bgp.BGPAddPathMode{bgp.RF_IPv4_UC: bgp.BGP_ADD_PATH_NONE, bgp.RF_IPv6_UC: bgp.BGP_ADD_PATH_NONE}
+	hd := &bgp.BGPHeader{}
+	if hd.DecodeFromBytes(raw[:19]) != nil {
+		return
+	}
+	m, err := bgp.ParseBGPBody(hd, raw[19:], &bgp.MarshallingOption{AddPath: rf})
+	if m == nil {
+		return
+	}
+	decodeErr = err != nil
+	if ok, ve := bgp.ValidateUpdateMsg(m.Body.(*bgp.BGPUpdate), rf, pt != c06lib.IBGP, pt == c06lib.Confed, false); !ok {
+		if me, isme := ve.(*bgp.MessageError); isme {
+			validateMsg, validateReset = me.Message, me.ErrorHandling >= bgp.ERROR_HANDLING_AFISAFI_DISABLE
+		}
+	}
+	return
+}
+
+func c06eSanitize(s string) string {
+	var sb strings.Builder
+	for _, c := range s {
+		switch {
+		case c >= 'a' && c <= 'z', c >= 'A' && c <= 'Z', c == '_':
+			sb.WriteRune(c)
+		case c == ' ':
+			sb.WriteRune('-')
+		}
+	}
+	x := sb.String()
+	if len(x) > 60 {
+		x = x[:60]
+	}
+	return x
 }
 
 // c06eTypes lists the attribute types of a well-framed attribute block.
